@@ -21,7 +21,8 @@ themes = {1: 'any realistic break', 2: 'the less obvious corners', 3: 'CONJUNCTI
           6: 'legal but unusual peers, kernel messages and configuration spellings that pyikev2 itself never produces',
           7: 'changes placed in the 46 functions no earlier change had touched, disguised as improvements (optimisation, simplification, hardening, modernisation)',
           8: 'regressions of the 25 repairs (a variant of a repaired defect: a neighbouring path, a guard that no longer holds, a simplification of the fix) and the edges of the process (start-up, shutdown, status socket, logging set-up)',
-          9: 'the less-travelled corners of the configuration space (IPv6 and mixed-family tunnels, AH, RSA, lifetime -1, several connections) and numeric boundaries'}
+          9: 'the less-travelled corners of the configuration space (IPv6 and mixed-family tunnels, AH, RSA, lifetime -1, several connections) and numeric boundaries',
+          10: 'defects that hide in Python semantics (aliasing and in-place mutation, class-level state, truthiness of 0 / empty values, identity versus equality, exceptions raised inside handlers, signed struct formats, int constructors)'}
 head = f"""## 6. Seeded property-breaking changes and which checks catch them
 
 {n} changes, {2 * len(rounds)} per property in {len(rounds)} rounds, each written by a fresh sub-agent that saw only the property text and a scratch worktree of /repo
